@@ -42,7 +42,8 @@ const verifRoot = "/verif"
 
 func loadBaseline() (*Baseline, error) {
 	b := &Baseline{}
-	data, err := os.ReadFile(filepath.Join(verifRoot, "baseline", "obligations.json"))
+	// SCTPVC_BASELINE_FILE: a frozen copy of the baseline (used by the seeded-change runs, which take hours)
+	data, err := os.ReadFile(envOr("SCTPVC_BASELINE_FILE", filepath.Join(verifRoot, "baseline", "obligations.json")))
 	if err != nil {
 		return nil, err
 	}
